@@ -44,6 +44,12 @@ LawClauses(r) ==
     <<"NoneEqualsOnes", Law(r, "ones")>>,
     <<"ZeroIgnored", Law(r, "zeroweights")>>,
     <<"OrderInvariant", r.tiecons => Law(r, "perm")>>,
+    \* exact bit patterns (22-bit limbs) of (alpha, beta, delta): bits0 = the fit as the first fit of a fresh
+    \* process, bitsH = in a fresh process directly after a fixed-delta fit of ANOTHER instance on an equally
+    \* long sample, bitsA = in the run's sequence of fits, bitsB = repeated later in another order.
+    \* A fit is a function of (instance, data, weights): identical bit for bit.
+    <<"CaseOrderIndependent", r.bits0 = r.bitsA /\ r.bitsA = r.bitsB>>,
+    <<"EarlierFitDoesNotLeak", r.bits0 = r.bitsH>>,
     <<"DeltaLocalMin", ~r.fixed => StepOk(r.hq, r.dq) /\ LocalMinD(r.em, r.ep, r.emdef, r.epdef)>>
   >>
 
